@@ -105,6 +105,8 @@ pub(crate) struct RustField {
   /// The CBOR tag this field's CDDL type carries, if any (see
   /// https://github.com/anweiss/cddl/issues/639).
   pub tag: Option<TaggedPrelude>,
+  /// The field has no CDDL key of its own (wildcard `entries`, keyless `value`).
+  pub is_synthetic: bool,
 }
 
 /// A CDDL prelude type that is defined as a CBOR tag wrapping a simpler value.
@@ -977,9 +979,8 @@ fn group_to_fields(
 /// the same field twice and fail to compile with "field `entries` specified
 /// more than once". Repeats get a `_1`, `_2`, ... suffix.
 ///
-/// When a field's `original_name` matches the name being replaced, the field is
-/// synthetic (there is no corresponding CDDL key) and the `original_name` is
-/// renamed alongside it, so that no misleading `#[serde(rename = "entries")]`
+/// When the field is synthetic (there is no corresponding CDDL key) the
+/// `original_name` is renamed alongside it, so that no misleading `#[serde(rename = "entries")]`
 /// is emitted for the second and subsequent fields.
 ///
 /// See https://github.com/anweiss/cddl/issues/640
@@ -993,7 +994,8 @@ fn deduplicate_field_names(fields: &mut [RustField]) {
 
     if *count > 1 {
       let unique = format!("{}_{}", base, *count - 1);
-      if field.original_name == base {
+      // a field with a CDDL key keeps that key as its wire name
+      if field.is_synthetic {
         field.original_name = unique.clone();
       }
       field.name = unique;
@@ -1053,6 +1055,7 @@ fn group_entry_to_fields(
         doc,
         is_boxed: false,
         tag: tagged_prelude(ident),
+        is_synthetic: false,
       }]))
     }
     GroupEntry::InlineGroup { group, occur, .. } => {
@@ -1097,6 +1100,7 @@ fn value_member_key_to_field(
         doc,
         is_boxed: false,
         tag: None,
+        is_synthetic: true,
       }));
     }
     None => {
@@ -1109,6 +1113,7 @@ fn value_member_key_to_field(
         doc,
         is_boxed: false,
         tag: type_tagged_prelude(&vmke.entry_type),
+        is_synthetic: true,
       }));
     }
     _ => return Ok(None),
@@ -1148,6 +1153,7 @@ fn value_member_key_to_field(
     } else {
       type_tagged_prelude(&vmke.entry_type)
     },
+    is_synthetic: false,
   }))
 }
 
